@@ -99,6 +99,10 @@ def check(run, repo, world):
             classes_seen[o.cls] = classes_seen.get(o.cls, 0) + 1
             if o.cls not in leaf_objs:
                 leaf_objs[o.cls] = (I, v, st)
+        nraise = sum(1 for v, _ in res if isinstance(v, Raise))
+        run.ob("R-WIDTH", key + "#no-raise-leaf", nraise == 0,
+               "%d of %d leaf cases end in an exception" % (nraise,
+                                                            len(res)))
         run.ob("R-CODEC", key + "#all-cases", nbad == 0,
                "%d of %d leaf cases fail" % (nbad, len(res)),
                sample={"rule": "R-CODEC", "mode": key, "leaf_cases":
